@@ -110,7 +110,12 @@ def prepare_date(data, schema):
     if isinstance(data, datetime.date):
         return data.toordinal() - DAYS_SHIFT
     elif isinstance(data, str):
-        return datetime.date.fromisoformat(data).toordinal() - DAYS_SHIFT
+        try:
+            return datetime.date.fromisoformat(data).toordinal() - DAYS_SHIFT
+        except ValueError:
+            # Not a date; leave it for validation (it may belong to another
+            # branch of a union)
+            return data
     else:
         return data
 
